@@ -207,6 +207,7 @@ def execute_one(rec, want_checks=False, light=False):
     setup_run(claripy, cfg, light)
     seam = Z3Seam()
     seam.install()
+    seam.rlimit = int(cfg.get("z3_rlimit", 0))
     m = Machine(rec, claripy, seam)
     out = {"status": "ok"}
     before = probe_snapshot()
